@@ -188,9 +188,26 @@ func checkC06(e *Env) {
 				for fname, sizes := range fragmentations(r, need, true) {
 					for _, lang := range langsFor() {
 						data := r.Bytes(need + r.Intn(16))
-						if rep%5 == 1 {
+						switch rep % 10 {
+						case 1, 6:
 							for i := 0; i <= rep%4; i++ {
 								data[i] = 0
+							}
+						case 2: // "weak" entropy must be encoded like any other
+							for i := range data {
+								data[i] = 0
+							}
+						case 3:
+							for i := range data {
+								data[i] = 0xff
+							}
+						case 4:
+							for i := range data {
+								data[i] = data[0]
+							}
+						case 5:
+							for i := range data {
+								data[i] = byte(i)
 							}
 						}
 						send(c06exp{n: n, need: need, lang: lang, data: data, steps: stepsOf(sizes), k: -1, frag: fname})
